@@ -86,6 +86,246 @@ class Model(object):
             self._pdom[name] = d
         return d
 
+    def is_new_helper(self, name):
+        """a function defined in the library that the rule tables were not calibrated against
+        (tables/known_funcs.py): typically a helper extracted from a known function"""
+        from tables.known_funcs import KNOWN_FUNCS
+        return name in self.funcs and name not in KNOWN_FUNCS
+
+    def helper_closure(self, fname):
+        """[fname] + the new helpers it calls directly (transitively): their bodies are part of fname's behaviour"""
+        out = [fname]
+        i = 0
+        while i < len(out):
+            fn = self.funcs.get(out[i])
+            i += 1
+            if fn is None:
+                continue
+            for n in walk(fn.body):
+                if n.k == 'call':
+                    nm = callee_name(n)
+                    if nm is not None and nm not in out and self.is_new_helper(nm):
+                        out.append(nm)
+        return out
+
+    def field_stores(self, x, field, depth=0):
+        """stores to `field` performed by expression x: [(lhs, rhs, assignment node)], including the stores of
+        new helpers called directly from x (rhs re-expressed in the caller's terms when it is a helper parameter)"""
+        out = []
+        for (p, rhs, n) in flow.assigned_paths(x):
+            l = strip(n.kids[0]) if n.k != 'var' else None
+            if l is not None and l.k == 'mem' and l.field == field:
+                out.append((l, rhs, n))
+        if depth < 3:
+            for c in walk(x):
+                if c.k != 'call':
+                    continue
+                nm = callee_name(c)
+                if nm is None or not self.is_new_helper(nm):
+                    continue
+                fn = self.funcs[nm]
+                pmap = dict((prm[3], c.kids[1 + i]) for i, prm in enumerate(fn.params) if i + 1 < len(c.kids))
+                for (l, rhs, n) in self.field_stores(fn.body, field, depth + 1):
+                    r = strip(rhs) if rhs is not None else None
+                    out.append((l, pmap.get(r.ref) if (r is not None and r.k == 'ref') else None, n))
+        return out
+
+    def counted_loop(self, fname, lid, at=None):
+        """Loop `lid` of fname runs its body once for every i in [0, N): returns (decl id of i, name, N) or None.
+        Decided from the flow graph, not the loop keyword: the only exit is the test `i < N` (no break / return),
+        i is 0 on entry (unique reaching definition from outside), its only assignment in the loop is one
+        increment by 1 that lies on every path back to the head, and - when `at` (a node id) is given - the
+        increment is not executed before `at` within an iteration."""
+        g = self.cfg(fname)
+        lp = g.loops[lid]
+        if len(lp.cond_nodes) != 1:
+            return None
+        c = g.nodes[lp.cond_nodes[0]]
+        c0 = strip(c.x)
+        if not (c0.k == 'bin' and c0.op in ('<', '!=') and strip(c0.kids[0]).k == 'ref'
+                and strip(c0.kids[0]).refk in ('VarDecl', 'ParmVarDecl')):
+            return None
+        iv = strip(c0.kids[0])
+        bound = const_eval(c0.kids[1], self)
+        if bound is None or bound <= 0:
+            return None
+        # exits only through the test
+        for nid in lp.nodes:
+            for (t, lab) in g.nodes[nid].succ:
+                if t not in lp.nodes and nid != c.id:
+                    return None
+        # assignments to i inside the loop: exactly one increment by one
+        incs = []
+        for nid in lp.nodes:
+            nd = g.nodes[nid]
+            if nd.x is None:
+                continue
+            for n in walk(nd.x):
+                tgt = None
+                if n.k == 'bin' and n.op.endswith('=') and n.op not in ('==', '!=', '<=', '>='):
+                    tgt = strip(n.kids[0])
+                elif n.k == 'un' and n.op in ('++', '--', 'post++', 'post--', '&'):
+                    tgt = strip(n.kids[0])
+                if tgt is None or tgt.k != 'ref' or tgt.ref != iv.ref:
+                    continue
+                ok = False
+                if n.k == 'un' and n.op in ('++', 'post++'):
+                    ok = True
+                elif n.k == 'bin' and n.op == '+=' and const_eval(n.kids[1], self) == 1:
+                    ok = True
+                elif n.k == 'bin' and n.op == '=':
+                    r = strip(n.kids[1])
+                    if r.k == 'bin' and r.op == '+' and strip(r.kids[0]).k == 'ref' and strip(r.kids[0]).ref == iv.ref \
+                            and const_eval(r.kids[1], self) == 1:
+                        ok = True
+                if not ok:
+                    return None
+                incs.append(nid)
+        if len(incs) != 1:
+            return None
+        inc = incs[0]
+        # i == 0 on entry
+        dfs = self.defs_of(fname)
+        outer = [d for d in dfs.defs(lp.head, iv.ref) if d not in lp.nodes]
+        if len(outer) != 1 or outer[0] < 0:
+            return None
+        val = None
+        for (pp, rhs, n) in flow.assigned_paths(g.nodes[outer[0]].x):
+            if pp is not None and len(pp) == 1 and pp[0][1] == iv.ref and rhs is not None:
+                val = const_eval(rhs, self)
+        if val != 0:
+            return None
+
+        def reach(src, stop, avoid):
+            seen = set()
+            st = [src]
+            while st:
+                a = st.pop()
+                if a in seen or a == avoid or a not in lp.nodes:
+                    continue
+                seen.add(a)
+                if a == stop:
+                    return True
+                if a == lp.head and a != src:
+                    continue
+                st.extend(t for (t, lab) in g.nodes[a].succ)
+            return False
+        # every path from the test back to the head passes the increment
+        for (t, lab) in c.succ:
+            if t in lp.nodes and reach(t, lp.head, inc):
+                return None
+        if at is not None and at != inc:
+            # the increment does not come before `at` in an iteration
+            seen = set()
+            st = [t for (t, lab) in g.nodes[inc].succ]
+            while st:
+                a = st.pop()
+                if a in seen or a not in lp.nodes or a == lp.head:
+                    continue
+                seen.add(a)
+                if a == at:
+                    return None
+                st.extend(t for (t, lab) in g.nodes[a].succ)
+        return (iv.ref, iv.name, bound)
+
+    def param_written(self, fname, idx, depth=0):
+        """May function fname store through its pointer parameter #idx (directly, through a local copy of the
+        pointer, or in a callee it hands the pointer to)?  False only when every use is a read."""
+        key = (fname, idx)
+        memo = self.__dict__.setdefault('_pw', {})
+        if key in memo:
+            return memo[key]
+        fn = self.funcs.get(fname)
+        if fn is None or idx >= len(fn.params) or depth > 3:
+            return True
+        memo[key] = True          # recursion guard: pessimistic
+        al = set([fn.params[idx][3]])
+
+        def base_alias(x):
+            # the alias a path expression dereferences, else None
+            x = strip(x)
+            while x is not None:
+                if x.k == 'mem':
+                    b = strip(x.kids[0])
+                    if x.arrow and b.k == 'ref' and b.ref in al:
+                        return b
+                    x = b
+                elif x.k == 'idx':
+                    b = strip(x.kids[0])
+                    if b.k == 'ref' and b.ref in al:
+                        return b
+                    x = b
+                elif x.k == 'un' and x.op == '*':
+                    b = strip(x.kids[0])
+                    if b.k == 'ref' and b.ref in al:
+                        return b
+                    if b.k == 'bin' and b.op in ('+', '-'):
+                        b = strip(b.kids[0])
+                        if b.k == 'ref' and b.ref in al:
+                            return b
+                    x = b
+                else:
+                    return None
+            return None
+
+        def is_alias_val(x):
+            x = strip(x)
+            if x is None:
+                return False
+            if x.k == 'ref' and x.ref in al:
+                return True
+            if x.k == 'bin' and x.op in ('+', '-') and (x.cty or '').rstrip().endswith('*'):
+                return is_alias_val(x.kids[0])
+            return False
+        written = False
+        for rnd in range(3):
+            grew = False
+            for n in walk(fn.body):
+                if n.k == 'var' and n.kids and is_alias_val(n.kids[0]) and n.ref not in al:
+                    al.add(n.ref)
+                    grew = True
+                elif n.k == 'bin' and n.op == '=' and is_alias_val(n.kids[1]):
+                    l = strip(n.kids[0])
+                    if l.k == 'ref' and l.refk == 'VarDecl' and l.name not in self.globals:
+                        if l.ref not in al:
+                            al.add(l.ref)
+                            grew = True
+                    else:
+                        written = True       # the pointer escapes
+            if not grew:
+                break
+        for n in walk(fn.body):
+            if written:
+                break
+            if n.k == 'bin' and n.op.endswith('=') and n.op not in ('==', '!=', '<=', '>='):
+                l = strip(n.kids[0])
+                if base_alias(l) is not None:
+                    written = True
+                elif l.k == 'ref' and l.ref in al and not is_alias_val(n.kids[1]) and n.op == '=':
+                    pass                      # alias re-pointed elsewhere: later stores go through the new target only
+            elif n.k == 'un' and n.op in ('++', '--', 'post++', 'post--'):
+                if base_alias(n.kids[0]) is not None:
+                    written = True
+            elif n.k == 'un' and n.op == '&':
+                t = strip(n.kids[0])
+                if t.k == 'ref' and t.ref in al:
+                    written = True            # address of the pointer variable taken
+            elif n.k == 'call':
+                nm = callee_name(n)
+                for ai, a in enumerate(n.kids[1:]):
+                    if is_alias_val(a):
+                        if nm is not None and nm in self.funcs:
+                            if self.param_written(nm, ai, depth + 1):
+                                written = True
+                        else:
+                            written = True
+                    elif any(c.k == 'ref' and c.ref in al for c in walk(a)) and base_alias(a) is None:
+                        a0 = strip(a)
+                        if not (a0.k in ('mem', 'idx') or (a0.k == 'un' and a0.op == '*')):
+                            written = True
+        memo[key] = written
+        return written
+
     def need(self, *names):
         for n in names:
             if n not in self.funcs:
